@@ -3,7 +3,7 @@
    The model (Evo/Evo.v + C07/Model.v) is tied to /repo by the correspondence check of harness/c07.py. *)
 From Coq Require Import List NArith QArith Bool Ascii.
 Import ListNotations.
-From AgileV Require Import Evo.Heap Evo.Evo Evo.EvoProofs C07.Model C07.Proofs C07.ProofsAbs C07.ProofsInv C07.ProofsShare.
+From AgileV Require Import Evo.Heap Evo.Evo Evo.EvoProofs C07.Model C07.Proofs C07.ProofsAbs C07.ProofsInv C07.ProofsShare C07.ProofsHist C07.ProofsPrefix.
 Open Scope N_scope.
 
 (* LOAD_SAVE_ABS — for every agent a (ANY architecture descriptors, block sizes, contents, optimizers, hyper-parameters,
@@ -31,6 +31,58 @@ Theorem reachable_savable : forall (KS : list key) (c : cworld) (ops : list cop)
   savable a = true /\ Forall (fun l => l < s_next (w_store (cw (crun c ops)))) (agent_locs a).
 Proof. exact reachable_savable_lemma. Qed.
 Print Assumptions reachable_savable.
+
+(* FILES ARE IMMUTABLE — in a separated population whose files' cells are owned by nobody ([files_free]; true initially
+   when there are no files), every history keeps that invariant, never writes a cell of a file that exists, and only
+   appends to the list of files. *)
+Theorem files_intact : forall (ops : list cop) (c : cworld),
+  WF (cw c) -> files_free c ->
+  files_free (crun c ops) /\
+  (forall b l, In b (cw_files c) -> In l (locs_of (bl_blocks b)) ->
+     rd (w_store (cw (crun c ops))) l = rd (w_store (cw c)) l) /\
+  (exists extra, cw_files (crun c ops) = cw_files c ++ extra).
+Proof. exact crun_files_intact_lemma. Qed.
+Print Assumptions files_intact.
+
+(* THE PROPERTY OVER WHOLE HISTORIES (histories x crash points) — from any separated initial population with one good key
+   list: run ANY history ops1; save member i (any member whose registry has no encoder sharing and that holds no hidden
+   tensors); run ANY further history ops2 (the saved agent may train on, be mutated, cloned, overwritten by another
+   checkpoint, discarded; other files may be written and loaded); then Algo.load that file: the member that is appended
+   has exactly the view member i had at the moment it was saved. *)
+Theorem checkpoint_in_history : forall (KS : list key) (c0 : cworld) (ops1 ops2 : list cop) (i : nat) (a : agent),
+  WF (cw c0) -> all_keys KS c0 -> keys_good KS = true -> files_free c0 ->
+  let c1 := crun c0 ops1 in
+  nth_error (w_pop (cw c1)) i = Some a -> no_hidden a = true -> no_share (a_reg a) = true ->
+  let c2 := crun (cstep c1 (CSave i)) ops2 in
+  let c3 := cstep c2 (CLoad (length (cw_files c1))) in
+  exists r, w_pop (cw c3) = w_pop (cw c2) ++ [r] /\ abs (w_store (cw c3)) r = abs (w_store (cw c1)) a.
+Proof. exact checkpoint_in_history_lemma. Qed.
+Print Assumptions checkpoint_in_history.
+
+(* non-vacuity: a DQN-like member is trained and architecture-mutated, saved, trained on / scored / saved again, and
+   the first file is then loaded: all hypotheses hold (computed) and the theorem yields the restored member *)
+Example checkpoint_in_history_example :
+  let c0 := mkCW (mkWorld store_dqn [agent_dqn]) [] in
+  let ops1 := [CEvo (Learn 0 [(3, 2%nat)]); CEvo (Mutate 0 MArch [mkShape 1 9 2 1 0 0 1 0] 6)] in
+  let ops2 := [CEvo (Learn 0 [(3, 2%nat)]); CEvo (Score 0); CSave 0; CEvo (Mutate 0 MParam [] 7)] in
+  exists a r, nth_error (w_pop (cw (crun c0 ops1))) 0 = Some a /\
+    w_pop (cw (cstep (crun (cstep (crun c0 ops1) (CSave 0)) ops2) (CLoad 0))) =
+      w_pop (cw (crun (cstep (crun c0 ops1) (CSave 0)) ops2)) ++ [r] /\
+    abs (w_store (cw (cstep (crun (cstep (crun c0 ops1) (CSave 0)) ops2) (CLoad 0)))) r =
+      abs (w_store (cw (crun c0 ops1))) a.
+Proof.
+  intros c0 ops1 ops2.
+  destruct (nth_error (w_pop (cw (crun c0 ops1))) 0) as [a|] eqn:E; [|vm_compute in E; discriminate].
+  destruct (checkpoint_in_history (map fst (a_blocks agent_dqn)) c0 ops1 ops2 0 a) as (r & H1 & H2).
+  - apply sep_b_WF. vm_compute. reflexivity.
+  - split; [repeat constructor|constructor].
+  - vm_compute. reflexivity.
+  - constructor.
+  - exact E.
+  - vm_compute in E. injection E as <-. vm_compute. reflexivity.
+  - vm_compute in E. injection E as <-. vm_compute. reflexivity.
+  - exists a, r. split; [reflexivity|]. split; [exact H1|exact H2].
+Qed.
 
 (* ... crash-point form: the file may be loaded in any later store s' (the saved agent may have trained on, been mutated or
    discarded, other agents may have come and gone) as long as the file's own cells still hold what was written
@@ -222,6 +274,15 @@ Proof.
   split; [vm_compute; reflexivity|]. split; [|vm_compute; reflexivity].
   apply Forall_forall. intros l Hl. vm_compute in Hl. vm_compute. repeat (destruct Hl as [<-|Hl]; [reflexivity|]). contradiction.
 Qed.
+
+(* PREFIX_SAFE — for ALL duplicate-free lists of network and optimizer attribute names: in the dictionaries built by
+   get_checkpoint_dict (one d[name + suffix] = ... assignment per attribute and suffix, Python dict semantics) every lookup
+   {k: v for k, v in d.items() if k.startswith(name)}[name + suffix] of load / load_checkpoint returns the entry that was
+   stored for that very attribute and suffix — whatever prefixes the names are of each other. *)
+Theorem prefix_safe : forall (net_names opt_names : list str),
+  NoDup net_names -> NoDup opt_names -> prefix_ok net_names opt_names = true.
+Proof. exact prefix_ok_lemma. Qed.
+Print Assumptions prefix_safe.
 
 (* REFUTED on the current tree (known finding restore:{DDPG,TD3,PPO}+share:*:henc) — with a shared encoder the
    critic's detached encoder copy is not in the file; the restored critic holds a copy of the newly constructed
